@@ -11,10 +11,10 @@ From RM Require Import Gen.Generated.
 (* ---------- state ---------- *)
 
 (* the part of GeneralState that parse_timing_points reads *)
-Record tp_general := mkG {
-  g_mode : Z;       (* index into GameMode: Osu, Taiko, Catch, Mania *)
-  g_bank : Z;       (* default_sample_bank, index into SampleBank *)
-  g_volume : Z }.   (* default_sample_volume *)
+Record tp_general := mkTPG {
+  tpg_mode : Z;       (* index into GameMode: Osu, Taiko, Catch, Mania *)
+  tpg_bank : Z;       (* default_sample_bank, index into SampleBank *)
+  tpg_volume : Z }.   (* default_sample_volume *)
 
 Record TPState := mkTS {
   ts_general : tp_general;
@@ -145,15 +145,15 @@ Definition f_sig (o : option str) : option Z :=
 
 Definition f_bank (g : tp_general) (o : option str) : option Z :=
   match o with
-  | None => Some (g_bank g)
-  | Some s => obnd (pn_i32 s) (fun n => Some (odflt (g_bank g) (bank_of_int n)))
+  | None => Some (tpg_bank g)
+  | Some s => obnd (pn_i32 s) (fun n => Some (odflt (tpg_bank g) (bank_of_int n)))
   end.
 
 Definition f_custom (o : option str) : option Z :=
   match o with None => Some tp_default_custom_bank | Some s => pn_i32 s end.
 
 Definition f_vol (g : tp_general) (o : option str) : option Z :=
-  match o with None => Some (g_volume g) | Some s => pn_i32 s end.
+  match o with None => Some (tpg_volume g) | Some s => pn_i32 s end.
 
 Definition f_tc (o : option str) : bool :=
   match o with
@@ -225,7 +225,7 @@ Definition apply_line (st : TPState) (r : tp_line) : outcome TPState :=
   obind (if tc then add_control_point st time (PT (line_tp r)) tc else Done st) (fun st1 =>
   obind (add_control_point st1 time (PD (line_dp r)) tc) (fun st2 =>
   obind (add_control_point st2 time (PS (line_sp r)) tc) (fun st3 =>
-  obind (add_control_point st3 time (PE (line_ep (g_mode (ts_general st3)) r)) tc) (fun st4 =>
+  obind (add_control_point st3 time (PE (line_ep (tpg_mode (ts_general st3)) r)) tc) (fun st4 =>
   Done (set_time st4 time))))).
 
 (* TimingPoints::parse_timing_points.  Every `?` precedes the first state
@@ -296,7 +296,7 @@ Definition run_ops (mode : Z) (run : list tp_line) : list cp_op :=
   end.
 
 Definition spec_ops (g : tp_general) (lines : list str) : list cp_op :=
-  flat_map (run_ops (g_mode g)) (runs (accepted g lines)).
+  flat_map (run_ops (tpg_mode g)) (runs (accepted g lines)).
 
 Definition legacy_spec (g : tp_general) (lines : list str) : outcome ControlPoints :=
   cp_run cp_empty (spec_ops g lines).
